@@ -48,9 +48,16 @@ TieFlags(gs, n) == LET r == Resolve(gs, n) IN [k \in 1..Len(r) |-> ClosingZero(r
 \* any zero-length on-curve step (consecutive equal on-curve points) in some masters only
 ZeroSteps(c) == {k \in 1..Len(c) : c[k][3] # "off" /\ c[(k % Len(c)) + 1][3] # "off" /\ c[k][1] = c[(k % Len(c)) + 1][1] /\ c[k][2] = c[(k % Len(c)) + 1][2]}
 StepFlags(gs, n) == LET r == Resolve(gs, n) IN [k \in 1..Len(r) |-> ZeroSteps(r[k])]
-Known_C09_1(t) ==
-  \E n \in AllNames(FullSets(t)) : \E a, b \in 1..Len(FullSets(t)) :
+\* glyphs whose compiled structure differs between two masters (placeholders exempt, as in OutCompatible)
+BadGlyphs(t) ==
+  {n \in UNION {DOMAIN t.out[k] : k \in 1..Len(t.out)} :
+     \E a, b \in 1..Len(t.out) : n \in DOMAIN t.out[a] /\ n \in DOMAIN t.out[b]
+                                  /\ ~(Placeholder(t, a, n) \/ Placeholder(t, b, n)) /\ t.out[a][n] # t.out[b][n]}
+TieExplained(t, n) ==
+  \E a, b \in 1..Len(FullSets(t)) :
      n \in DOMAIN FullSets(t)[a] /\ n \in DOMAIN FullSets(t)[b] /\ TieFlags(FullSets(t)[a], n) # TieFlags(FullSets(t)[b], n)
+\* the signature is per glyph: EVERY glyph whose structure differs must itself have the closing tie in some masters only
+Known_C09_1(t) == BadGlyphs(t) # {} /\ \A n \in BadGlyphs(t) : TieExplained(t, n)
 
 Clauses(t) ==
   << <<"compiles", ~Has(t, "err")>>,
